@@ -399,6 +399,26 @@ impl feoxdb::verif::io::Observer for IoCounter {
     }
 }
 
+/// creates a foreign file at `path` at the first device write it sees (i.e. while a migration is
+/// filling its temporary file, after the up-front existence check)
+struct Appear {
+    path: String,
+    armed: std::sync::atomic::AtomicBool,
+}
+
+impl feoxdb::verif::io::Observer for Appear {
+    fn event(&self, kind: feoxdb::verif::io::Kind, _fd: i32, _sector: u64, _len: usize, _data: &[u8]) -> feoxdb::verif::io::Decision {
+        use feoxdb::verif::io::Kind::*;
+        if matches!(kind, Write | RingWrite) && self.armed.swap(false, std::sync::atomic::Ordering::SeqCst) {
+            if let Ok(mut f) = std::fs::OpenOptions::new().write(true).create_new(true).open(&self.path) {
+                use std::io::Write as _;
+                let _ = f.write_all(b"foreign file, not ours");
+            }
+        }
+        feoxdb::verif::io::Decision::Proceed
+    }
+}
+
 fn body_digest(path: &str) -> u64 {
     let after = std::fs::read(path).unwrap();
     if after.len() < 16 * BS {
@@ -593,6 +613,14 @@ fn dup_generation(rng: &mut Rng, img: &mut Vec<u8>, version: u32, now: u64) -> b
         let e = match rng.below(4) { 0 => 0u64, 1 | 2 => now.saturating_sub(rng.range(1, 3_000_000_000)), _ => now.saturating_add(1_000_000_000_000) };
         img[o + 22 + kl..o + 30 + kl].copy_from_slice(&e.to_le_bytes());
     }
+    // often a different value length too (a generation that grew or shrank)
+    if rng.chance(1, 2) {
+        let vl = u64::from_le_bytes(img[o + 6 + kl..o + 14 + kl].try_into().unwrap());
+        if vl > 1 {
+            let nvl = rng.range(1, vl);
+            img[o + 6 + kl..o + 14 + kl].copy_from_slice(&nvl.to_le_bytes());
+        }
+    }
     // change the value's first byte so the generations differ in content
     let voff = if version >= 2 { 30 + kl } else { 22 + kl };
     img[o + voff] ^= 0x5A;
@@ -710,6 +738,143 @@ fn mutate_image(rng: &mut Rng, img: &mut Vec<u8>, version: u32) -> &'static str 
 }
 
 /// `dupgen` section: only multi-generation images (C11's no-resurrection clause)
+/// records the device writes (with their bytes) and fsyncs of an open
+struct Tracer {
+    log: std::sync::Mutex<Vec<(bool, u64, Vec<u8>)>>, // (is_write, block, bytes)
+}
+
+impl feoxdb::verif::io::Observer for Tracer {
+    fn event(&self, kind: feoxdb::verif::io::Kind, _fd: i32, sector: u64, _len: usize, data: &[u8]) -> feoxdb::verif::io::Decision {
+        use feoxdb::verif::io::Kind::*;
+        match kind {
+            Write | RingWrite => self.log.lock().unwrap().push((true, sector, data.to_vec())),
+            Fsync => self.log.lock().unwrap().push((false, 0, vec![])),
+            _ => {}
+        }
+        feoxdb::verif::io::Decision::Proceed
+    }
+}
+
+/// what a completed recovery of `path` exposes: key -> (timestamp, expiry, value digest)
+fn recovered_contents(path: &str, amb: bool, ttl: bool, now: u64, tracer: Option<std::sync::Arc<Tracer>>) -> Result<std::collections::BTreeMap<Vec<u8>, (u64, u64, String)>, String> {
+    feoxdb::verif::clock::pin(now);
+    if let Some(t) = &tracer { feoxdb::verif::io::set_observer(Some(t.clone())); }
+    let p = path.to_string();
+    let (tx, rx) = std::sync::mpsc::channel();
+    let opener = std::thread::spawn(move || {
+        let r = catch_unwind(AssertUnwindSafe(|| {
+            FeoxStore::builder().device_path(p.clone()).hash_bits(6).enable_caching(false).enable_ttl(ttl)
+                .allow_ambiguous_legacy_recovery(amb).build()
+        }));
+        let _ = tx.send(r);
+    });
+    let r = match rx.recv_timeout(std::time::Duration::from_secs(20)) {
+        Ok(r) => { let _ = opener.join(); r }
+        Err(_) => { eprintln!("HANG: opening {} did not return within 20 s", path); std::process::exit(3); }
+    };
+    feoxdb::verif::io::set_observer(None);
+    let res = match r {
+        Err(_) => Err("panic".to_string()),
+        Ok(Err(e)) => Err(format!("err {}", err_name(&e))),
+        Ok(Ok(store)) => {
+            let mut m = std::collections::BTreeMap::new();
+            for r in store.verif_snapshot() {
+                let vd = match catch_unwind(AssertUnwindSafe(|| store.get(&r.key))) {
+                    Ok(Ok(v)) => format!("{}", fnv(&v)),
+                    Ok(Err(e)) => format!("E{}", err_name(&e)),
+                    Err(_) => "PANIC".to_string(),
+                };
+                m.insert(r.key.clone(), (r.timestamp, r.ttl_expiry, vd));
+            }
+            if m.len() != store.len() { m.insert(b"#len".to_vec(), (store.len() as u64, 0, String::new())); }
+            drop(store);
+            Ok(m)
+        }
+    };
+    feoxdb::verif::clock::unpin();
+    res
+}
+
+/// C04 on devices that hold several generations of a key with expiries on both sides of the
+/// recovery time: recovery's own write trace is cut at every write (everything up to the cut on the
+/// device; or only what was fsynced plus a subset of the rest) and the resulting device is recovered
+/// again; what the restarted recovery exposes must be what the uninterrupted one exposed
+fn sec_reccut(s: &mut Sink, rng: &mut Rng, workloads: usize, mutations: usize, oracle: &mut Vec<String>) {
+    let base = 1_700_000_000_000_000_000u64;
+    for w in 0..workloads {
+        let version = *rng.pick(&[3u32, 3, 2]);
+        let blocks = rng.range(20, 64);
+        let path = format!("{}/rc{}.feox", s.dir, w);
+        new_device(&path, blocks, version);
+        let now = base + rng.below(1_000_000_000);
+        let steps = rng.range(1, 40);
+        let _ = run_workload(rng, &path, blocks, version, true, now, steps);
+        let pristine = std::fs::read(&path).unwrap();
+        let later = now + *rng.pick(&[0u64, 2_000_000_000, 6_000_000_000, 2_000_000_000_000]);
+        for m in 0..mutations {
+            let mut img = pristine.clone();
+            let mut gens = 0;
+            for _ in 0..rng.range(1, 3) { if dup_generation(rng, &mut img, version, later) { gens += 1; } }
+            if gens == 0 { *s.hist.entry("reccut-skipped-no-generation".into()).or_insert(0) += 1; continue; }
+            let amb = rng.chance(1, 3);
+            let mp = format!("{}/rc{}_m{}.feox", s.dir, w, m);
+            std::fs::write(&mp, &img).unwrap();
+            let tracer = std::sync::Arc::new(Tracer { log: std::sync::Mutex::new(vec![]) });
+            let r0 = match recovered_contents(&mp, amb, true, later, Some(tracer.clone())) {
+                Ok(r) => r,
+                Err(_) => { *s.hist.entry("reccut-first-recovery-refused".into()).or_insert(0) += 1; let _ = std::fs::remove_file(&mp); continue; }
+            };
+            let trace = tracer.log.lock().unwrap().clone();
+            let nwrites = trace.iter().filter(|e| e.0).count();
+            *s.hist.entry(format!("reccut-image-{}-repair-writes", nwrites.min(9))).or_insert(0) += 1;
+            let cuts: Vec<usize> = trace.iter().enumerate().filter(|(_, e)| e.0).map(|(i, _)| i + 1).collect();
+            for &cut in &cuts {
+                for variant in 0..2 {
+                    // 0: everything issued up to the cut is on the device; 1: fsynced writes + a random subset of the rest
+                    let mut img2 = img.clone();
+                    let mut pending: Vec<&(bool, u64, Vec<u8>)> = vec![];
+                    let apply = |img2: &mut Vec<u8>, e: &(bool, u64, Vec<u8>)| {
+                        let off = e.1 as usize * BS;
+                        if off + e.2.len() <= img2.len() { img2[off..off + e.2.len()].copy_from_slice(&e.2); }
+                    };
+                    for e in &trace[..cut] {
+                        if e.0 { if variant == 0 { apply(&mut img2, e); } else { pending.push(e); } }
+                        else { for q in pending.drain(..) { apply(&mut img2, q); } }
+                    }
+                    if variant == 1 {
+                        if pending.is_empty() { continue; }
+                        for q in pending.drain(..) { if rng.chance(1, 2) { apply(&mut img2, q); } }
+                    }
+                    let cp = format!("{}/rc{}_m{}_c{}_{}.feox", s.dir, w, m, cut, variant);
+                    std::fs::write(&cp, &img2).unwrap();
+                    *s.hist.entry("reccut-restart".into()).or_insert(0) += 1;
+                    let r1 = recovered_contents(&cp, amb, true, later, None);
+                    let same = matches!(&r1, Ok(r) if *r == r0);
+                    if !same {
+                        let keep0 = format!("{}/rc{}_m{}.image", s.dir, w, m);
+                        let keep1 = format!("{}/rc{}_m{}_c{}_{}.image", s.dir, w, m, cut, variant);
+                        std::fs::write(&keep0, &img).unwrap();
+                        std::fs::write(&keep1, &img2).unwrap();
+                        let show = |r: &std::collections::BTreeMap<Vec<u8>, (u64, u64, String)>| r.iter().map(|(k, v)| format!("{}@{}/{}={}", hex(k), v.0, v.1, v.2)).collect::<Vec<_>>().join(",");
+                        let diff = match &r1 {
+                            Err(e) => format!("the restarted recovery fails: {}", e),
+                            Ok(r) => {
+                                let k = r.keys().chain(r0.keys()).find(|k| r.get(*k) != r0.get(*k)).unwrap();
+                                format!("key {}: uninterrupted recovery {:?}, restarted recovery {:?}", hex(k), r0.get(k), r.get(k))
+                            }
+                        };
+                        oracle.push(format!("reccut: recovery (ttl on, now={}, amb={}) of {} interrupted after {} of its {} device events ({}) and restarted on {} exposes different contents — {} [first: {}]",
+                            later, amb as u8, keep0, cut, trace.len(), if variant == 0 { "all issued writes landed" } else { "un-synced writes partly lost" }, keep1, diff, show(&r0)));
+                    }
+                    let _ = std::fs::remove_file(&cp);
+                }
+            }
+            let _ = std::fs::remove_file(&mp);
+        }
+        let _ = std::fs::remove_file(&path);
+    }
+}
+
 static DUPGEN_ONLY: std::sync::atomic::AtomicBool = std::sync::atomic::AtomicBool::new(false);
 
 fn sec_recover(s: &mut Sink, rng: &mut Rng, workloads: usize, mutations: usize) {
@@ -871,9 +1036,37 @@ fn sec_migrate(s: &mut Sink, rng: &mut Rng, workloads: usize, oracle: &mut Vec<S
             if pre_existing {
                 std::fs::write(&dst, b"precious").unwrap();
             }
+            // sometimes a foreign file appears at the destination while the migration is under way
+            let appears = !pre_existing && rng.chance(1, 6);
+            if appears {
+                let ap = std::sync::Arc::new(Appear { path: dst.clone(), armed: std::sync::atomic::AtomicBool::new(true) });
+                feoxdb::verif::io::set_observer(Some(ap));
+            }
             let r = catch_unwind(AssertUnwindSafe(|| {
                 feoxdb::migrate(feoxdb::MigrationOptions::new(src.clone(), dst.clone()).allow_ambiguous_legacy_recovery(amb))
             }));
+            if appears {
+                feoxdb::verif::io::set_observer(None);
+                *s.hist.entry("migrate-destination-appears-meanwhile".to_string()).or_insert(0) += 1;
+                let foreign_there = std::fs::read(&dst).map(|b| b == b"foreign file, not ours").unwrap_or(false);
+                let appeared = std::path::Path::new(&dst).exists() && (foreign_there || matches!(r, Ok(Ok(_))));
+                if appeared {
+                    match &r {
+                        Ok(Ok(_)) => oracle.push(format!("migrate {}: a foreign file that appeared at the destination during the migration was replaced and migrate() returned Ok", src)),
+                        Ok(Err(_)) if !foreign_there => oracle.push(format!("migrate {}: a foreign file that appeared at the destination during the migration was modified or removed", src)),
+                        _ => {}
+                    }
+                }
+                for e in std::fs::read_dir(&s.dir).unwrap().flatten() {
+                    let n = e.file_name().to_string_lossy().to_string();
+                    if n.contains(".feox-migrate-") {
+                        oracle.push(format!("migrate {}: temporary file {} left behind", src, n));
+                        let _ = std::fs::remove_file(e.path());
+                    }
+                }
+                let _ = std::fs::remove_file(&dst);
+                continue;
+            }
             if std::fs::read(&src).unwrap() != img {
                 oracle.push(format!("migrate {}: the source file's bytes changed", src));
             }
@@ -1069,6 +1262,11 @@ fn main() {
         let m = kv(&args.extra, "mutations", 12);
         sec_recover(&mut s, &mut rng, w, m);
         DUPGEN_ONLY.store(false, std::sync::atomic::Ordering::Relaxed);
+    }
+    if sections.iter().any(|x| x == "reccut") {
+        let w = kv(&args.extra, "workloads", 30 * k);
+        let m = kv(&args.extra, "mutations", 8);
+        sec_reccut(&mut s, &mut rng, w, m, &mut oracle);
     }
     if sections.iter().any(|x| x == "recover") {
         let w = kv(&args.extra, "workloads", 30 * k);
